@@ -158,7 +158,7 @@ fn case_close_during_nested_flush(out: &mut CaseOut, seed: u64, idx: u64) {
 
 fn n_parked_close_cases(tier: &str) -> u64 {
     if tier == "quick" {
-        16
+        28
     } else {
         128
     }
@@ -185,8 +185,10 @@ fn case_close_while_worker_parked(out: &mut CaseOut, seed: u64, idx: u64) {
     } else {
         (Arc::new(OsFileSystem::new()), scratch.dir.join("db").to_string_lossy().to_string())
     };
-    const POINTS: [(&str, u64); 8] = [("gc.delete_one", 2), ("gc.before_delete", 3), ("manifest.before_append", 4), ("gc.delete_one", 9), ("flush.after_build", 3),
-        ("compact.step", 5), ("manifest.after_append", 5), ("gc.before_delete", 6)];
+    // collections dominate: which of them follows a flush and which a table compaction depends on the run
+    const POINTS: [(&str, u64); 14] = [("gc.delete_one", 2), ("gc.before_delete", 3), ("manifest.before_append", 4), ("gc.delete_one", 9), ("flush.after_build", 3),
+        ("compact.step", 5), ("manifest.after_append", 5), ("gc.before_delete", 6), ("gc.delete_one", 5), ("gc.before_delete", 9), ("gc.delete_one", 14),
+        ("gc.before_delete", 12), ("gc.delete_one", 20), ("gc.before_delete", 4)];
     let (point, nth) = POINTS[(idx / 2 % POINTS.len() as u64) as usize];
     let memtable = 1024usize;
     let ctx = json!({"family": "close-while-the-background-thread-is-parked-mid-work", "filesystem": if use_tmpfs { "TmpFileSystem" } else { "OsFileSystem" }, "parked_at": point, "nth_arrival": nth});
